@@ -50,4 +50,14 @@ def errMap : IniErr → OvErr
   | .exists => .exists
   | _ => .badValue
 
+/-! ### the command-line layer (`_make_config_parser`) -/
+
+/-- `_item_id`: section and key without its white space -/
+def cliKey (o : OvRec) : String × String := (o.sect, norm o.key)
+
+/-- the ordered dictionary of `-e` and `-r` options: a later option for the same item replaces the earlier one in its position -/
+def cliDict (items : List OvRec) : List OvRec :=
+  items.foldl (fun acc o =>
+    if acc.any (fun p => cliKey p == cliKey o) then acc.map (fun p => if cliKey p == cliKey o then o else p) else acc ++ [o]) []
+
 end Atsim.IniOps
